@@ -210,7 +210,7 @@ func init() {
 	})
 
 	register(&Rule{
-		ID: "C04.R3", Props: []string{"C04", "C17"}, Min: 2,
+		ID: "C04.R3", Props: []string{"C04", "C17", "C05"}, Min: 2,
 		Doc: "scope storage ownership: the scope list (Stack.stack) is read or written only by methods of *Stack; the one deliberate exception (write-through of <template :x> bindings to the parent scope) restores the scope it removed, in the same straight-line block",
 		Run: func(p *Prog, c *Ctx) {
 			var stackField *types.Var
@@ -576,6 +576,35 @@ func init() {
 					}
 				}
 			}
+			// every :require / :required attribute is read: the keys are compared while ranging over all attributes
+			// (a first-match accessor such as GetAttr sees only one of several repeated attributes)
+			inLoop := map[string]bool{}
+			eachInstr(fn, func(in ssa.Instruction) {
+				if b, ok := in.(*ssa.BinOp); ok && b.Op == token.EQL {
+					if s, ok := constString(b.Y); ok && (s == ":require" || s == ":required") {
+						if f := loadedField(b.X); f != nil && f.Name() == "Key" && loopHeaderOf(b.Block()) != nil {
+							inLoop[s] = true
+						}
+					}
+				}
+			})
+			viaGet := ""
+			for _, site := range callsIn(fn) {
+				if n := calleeName(site.Common()); n == "helpers.GetAttr" || n == "helpers.HasAttr" {
+					for _, o := range p.origins(site.Common().Args[1], OriginOpts{}) {
+						if s, ok := constString(o); ok && (s == ":require" || s == ":required") {
+							viaGet = n
+						}
+						if ld, ok := o.(*ssa.UnOp); ok {
+							if ia, ok := ld.X.(*ssa.IndexAddr); ok {
+								_ = ia
+								viaGet = n // key taken from a list of names
+							}
+						}
+					}
+				}
+			}
+			c.check(inLoop[":require"] && inLoop[":required"] && viaGet == "", "evalTemplate: every :require/:required attribute is read", p.pos(fn.Pos()), "keys compared while ranging over all attributes", "the required lists are not collected by ranging over all attributes ("+viaGet+" returns only the first attribute of a name): a component that repeats :require — the documented form — has its later lists ignored, so a missing variable no longer fails the render")
 			c.check(errOK, "evalTemplate: missing → error", p.instrPos(lk), "a missing required name returns a non-nil error", "the failed presence test does not lead to a returned error")
 			c.check(named, "evalTemplate: error names the variable", p.instrPos(lk), "the error's arguments include the missing name", "the error returned for a missing required variable does not carry its name")
 			h := loopHeaderOf(lk.Block())
